@@ -378,27 +378,35 @@ def v_len(p):
   p.verify('ClientDataset.__len__', eng, body)
 
 
-def v_entry_points(p):
+def v_entry_points(p, only=None):
   """ClientDataset.batch / padded_batch / shuffle_repeat_batch: the view is built from `hparams` with EVERY keyword override
   applied (a falsy override such as drop_remainder=False or num_epochs=None included); without an hparams object the keywords
   construct it."""
   import ast
   from ..extract import parse
-  views = {'batch': ('BatchView', 'BatchHParams', 'drop_remainder', 'bool'),
-           'padded_batch': ('PaddedBatchView', 'PaddedBatchHParams', 'num_batch_size_buckets', 'int'),
-           'shuffle_repeat_batch': ('ShuffleRepeatBatchView', 'ShuffleRepeatBatchHParams', 'drop_remainder', 'bool')}
-  for meth, (view, hp_cls, field, sort) in views.items():
+  views = [('batch', '', 'BatchView', 'BatchHParams', 'drop_remainder', 'bool'),
+           ('padded_batch', '', 'PaddedBatchView', 'PaddedBatchHParams', 'num_batch_size_buckets', 'int'),
+           ('shuffle_repeat_batch', '', 'ShuffleRepeatBatchView', 'ShuffleRepeatBatchHParams', 'drop_remainder', 'bool'),
+           # Optional[int] fields: None is a meaningful value (num_epochs=None: repeat until num_steps / forever)
+           ('shuffle_repeat_batch', ':num_epochs=None', 'ShuffleRepeatBatchView', 'ShuffleRepeatBatchHParams', 'num_epochs', 'none'),
+           ('shuffle_repeat_batch', ':num_steps=None', 'ShuffleRepeatBatchView', 'ShuffleRepeatBatchHParams', 'num_steps', 'none'),
+           ('shuffle_repeat_batch', ':seed=None', 'ShuffleRepeatBatchView', 'ShuffleRepeatBatchHParams', 'seed', 'none')]
+  for meth, tag, view, hp_cls, field, sort in views:
+    if only is not None and meth not in only:
+      continue
     ex = p.extract(F, f'ClientDataset.{meth}')
     rec = {}
     eng = Engine({view: Handler(lambda c, ds, hp, rec=rec: rec.setdefault('hp', hp) or hp, view)})
     eng.sources = [F]
-    new = z3.Bool('override') if sort == 'bool' else z3.Int('override')
+    new = None if sort == 'none' else z3.Bool('override') if sort == 'bool' else z3.Int('override')
     old = z3.Bool('hparams_value') if sort == 'bool' else z3.Int('hparams_value')
     bs = z3.Int('batch_size')
 
     def body(ctx, ex=ex, hp_cls=hp_cls, field=field, rec=rec, new=new, old=old, eng=eng):
       rec.clear()
-      ctx.model_vars.update(override=new, hparams_value=old, batch_size=bs)
+      ctx.model_vars.update(hparams_value=old, batch_size=bs)
+      if new is not None:
+        ctx.model_vars['override'] = new
       cls = eng._resolve_in(ctx, F, hp_cls)[0]
       fields = {n: (d if d is not None else None) for n, d in (cls.dc_fields or [])}
       fields.update({'batch_size': bs, field: old})
@@ -412,12 +420,18 @@ def v_entry_points(p):
       if not ok:
         return
       f = got.cell(ctx).fields
-      ctx.oblige('entry.override', z3.And(to_z3(f.get(field)) == new, to_z3(f.get('batch_size')) == bs),
+      if new is None:
+        ctx.oblige('entry.override.none', z3.And(z3.BoolVal(field in f and f[field] is None),
+                                                 to_z3(f.get('batch_size')) == bs),
+                   detail=f'{meth}(hparams, {field}=None): the view sees {field} = None (None is a value of this Optional field, '
+                          'not "unspecified") and the other fields of hparams unchanged')
+      else:
+        ctx.oblige('entry.override', z3.And(to_z3(f.get(field)) == new, to_z3(f.get('batch_size')) == bs),
                  detail=f'{meth}(hparams, {field}=v): the view sees {field} = v for EVERY v (falsy values included) and the other '
                         'fields of hparams unchanged')
       ctx.oblige('frame.hparams', to_z3(hp.cell(ctx).fields[field]) is not None and hp.cell(ctx).fields[field] is old,
                  detail="the caller's hparams object is not modified")
-    p.verify(f'ClientDataset.{meth}[entry]', eng, body)
+    p.verify(f'ClientDataset.{meth}[entry{tag}]', eng, body)
 
 
 def build(p):
